@@ -1270,6 +1270,37 @@ func (ctx Ctx) stmtsEndWithReturn(ss []ast.Stmt) bool {
 	return false
 }
 
+// scopedStmtShadows reports whether s is a block or a loop that declares a
+// variable whose name hides a local variable visible where s starts.
+//
+// The bindings of a block or of a loop variable are printed as a let without
+// delimiters, so when more statements follow they extend over them; this only
+// matters if those statements can mention the hidden variable.
+func (ctx Ctx) scopedStmtShadows(s ast.Stmt) bool {
+	switch s.(type) {
+	case *ast.BlockStmt, *ast.ForStmt:
+	default:
+		return false
+	}
+	shadows := false
+	ast.Inspect(s, func(n ast.Node) bool {
+		id, ok := n.(*ast.Ident)
+		if !ok || shadows {
+			return !shadows
+		}
+		obj, ok := ctx.info.Defs[id].(*types.Var)
+		if !ok || obj.Parent() == nil {
+			return true
+		}
+		_, outer := obj.Parent().LookupParent(id.Name, s.Pos())
+		if v, ok := outer.(*types.Var); ok && v.Pkg() != nil && v.Parent() != v.Pkg().Scope() {
+			shadows = true
+		}
+		return true
+	})
+	return shadows
+}
+
 func (ctx Ctx) stmts(ss []ast.Stmt, usage ExprValUsage) coq.BlockExpr {
 	c := &cursor{ss}
 	var bindings []coq.Binding
@@ -1285,7 +1316,13 @@ func (ctx Ctx) stmts(ss []ast.Stmt, usage ExprValUsage) coq.BlockExpr {
 		default:
 			// All other statements are translated one-by-one
 			if c.HasNext() {
-				bindings = append(bindings, ctx.stmt(s))
+				binding := ctx.stmt(s)
+				if ctx.scopedStmtShadows(s) {
+					// the let-bindings printed for s would otherwise also
+					// scope over the statements that follow s
+					binding = coq.NewAnon(coq.ParenExpr{X: binding.Expr})
+				}
+				bindings = append(bindings, binding)
 			} else {
 				// The last statement is special: we propagate the usage and store "finalized"
 				binding, fin := ctx.stmtInBlock(s, usage)
